@@ -422,6 +422,7 @@ class Interp:
         self.decisions = []
         self.stack = []
         self.steps = 0
+        self._statics = {}
 
     def where(self):
         return ' > '.join('%s:bb%s' % (split_path(f.name)[-1], f.bb) for f in self.stack[-6:])
@@ -567,10 +568,53 @@ class Interp:
             return UNIT
         if t.startswith('PhantomData'):
             return UNIT
+        if t.startswith('{alloc'):
+            # `{allocN: &T}`: a reference to a static item; the dump names it after the function: `allocN (static: NAME, size: ..)`.
+            # The static's own MIR body (its initialiser) is evaluated once per path and shared by reference.
+            m = re.match(r'\{(alloc\d+): &', t)
+            if m:
+                r_ = self.eval_static_ref(m.group(1))
+                if r_ is not None:
+                    return r_
         if t.startswith('{alloc') or t.startswith('{transmute') or t.startswith('Indirect'):
             raise Unsupported('memory-dump constant %s' % t[:40])
         # const item / promoted / fn item / unit enum variant
         return self.eval_path_const(t, frame)
+
+    def eval_static_ref(self, alloc):
+        if not hasattr(self, '_statics'):
+            self._statics = {}
+        key = alloc
+        for mir in self.crate.mirs:
+            idx = getattr(mir, '_alloc_static', None)
+            if idx is None:
+                idx = {}
+                for ln in mir.lines:
+                    if ln.startswith('alloc') and ' (static: ' in ln:
+                        mm = re.match(r'(alloc\d+) \(static: ([A-Za-z0-9_:]+),', ln)
+                        if mm:
+                            idx.setdefault(mm.group(1), mm.group(2))
+                mir._alloc_static = idx
+            name = idx.get(alloc)
+            if name is None:
+                continue
+            cell = self._statics.get((id(mir), name))
+            if cell is None:
+                item = None
+                for n in mir.names():
+                    if n == name or n.endswith('::' + name) or split_path(n)[-1] == split_path(name)[-1]:
+                        kind = mir.items[n][0]
+                        if kind.startswith('static') or kind == 'const':
+                            item = n
+                            break
+                if item is None:
+                    return None
+                body = mir.get(item)
+                v = self.call_body(mir, item, body, [], None)
+                cell = [v]
+                self._statics[(id(mir), name)] = cell
+            return Ref(cell, 0, mut=False)
+        return None
 
     def eval_path_const(self, t, frame):
         segs = [strip_generics(s) if not s.startswith('<') else s for s in split_path(t)]
@@ -1606,6 +1650,20 @@ class Interp:
                 mname = strip_generics(rest[2:]) if rest.startswith('::') else rest
                 mname = split_path(mname)[-1]
                 st = strip_ref(selft)
+                if st.startswith('dyn ') and args:
+                    # trait object: dispatch on the runtime type of the receiver (&mut Box<dyn T> / &mut dyn T / Box<dyn T>)
+                    a0 = args[0]
+                    for _ in range(4):
+                        if type(a0) is Ref:
+                            a0 = a0.cont[a0.key]
+                        elif type(a0) is BoxV:
+                            a0 = a0.cell[0]
+                        else:
+                            break
+                    if type(a0) is Agg:
+                        st = a0.ty.split('@')[0]
+                    elif hasattr(a0, 'dyn_type'):
+                        st = a0.dyn_type
                 if re.fullmatch(r'[A-Z][A-Za-z0-9]*', st) and args and st not in self.layouts.structs and st not in self.layouts.enums:
                     # unresolved generic parameter: dispatch on the runtime type of the receiver
                     a0 = args[0]
